@@ -50,6 +50,27 @@ def eval_guard(expr, env):
         return True
     if isinstance(expr, (ast.Tuple, ast.List)):
         return [eval_guard(e, env) for e in expr.elts]
+    if isinstance(expr, ast.Call) and isinstance(expr.func, ast.Name) and expr.func.id == "len" and len(expr.args) == 1 and not expr.keywords:
+        return len(eval_guard(expr.args[0], env))
+    if (
+        isinstance(expr, ast.Call)
+        and isinstance(expr.func, ast.Attribute)
+        and not expr.keywords
+        and expr.func.attr in ("upper", "lower", "strip", "lstrip", "rstrip", "casefold", "startswith", "endswith", "isalpha", "isdigit", "isupper", "islower", "isalnum", "keys")
+    ):
+        recv = eval_guard(expr.func.value, env)
+        args = [eval_guard(a, env) for a in expr.args]
+        if isinstance(recv, str) or (expr.func.attr == "keys" and isinstance(recv, dict)):
+            r = getattr(recv, expr.func.attr)(*args)
+            return list(r) if expr.func.attr == "keys" else r
+        raise KeyError(norm_src(expr))
+    if isinstance(expr, ast.Subscript) and not isinstance(expr.slice, ast.Slice):
+        base = eval_guard(expr.value, env)
+        idx = eval_guard(expr.slice, env)
+        try:
+            return base[idx]
+        except Exception:
+            raise KeyError(norm_src(expr))
     raise KeyError(norm_src(expr))
 
 
@@ -81,6 +102,28 @@ def check_c16(ctx, led):
     vname = params[0]
     allname = params[1]
     body = f.node.body
+    # ---- (0) "repeats the question until legal" for every finite answer sequence: re-asking must
+    # be iteration; a call-graph cycle reachable from the builder grows the stack with every
+    # illegal answer and dies with RecursionError after a finite number of them
+    from .rules_access import get_effects
+
+    E = get_effects(ctx)
+    reach = E.reachable([f.qualname], loose_methods=False)
+    cyc = []
+    for q in sorted(reach):
+        if q in E.reachable(sorted(E.callees(q, loose_methods=False)), loose_methods=False):
+            cyc.append(q)
+    for q in cyc:
+        fq = E.by_qual[q]
+        led.violation(
+            "C16.ask.recursion",
+            "%s::recursive re-ask" % q,
+            fq.module.where(fq.node),
+            "%s is reachable from ask_interactively and calls itself (directly or indirectly): every repeated question "
+            "deepens the stack, so a finite run of illegal answers ends in RecursionError instead of another question" % q,
+        )
+    if not cyc:
+        led.ok("C16.ask.recursion", "interactive.ask_interactively::call graph", where, "%d reachable functions, no cycle" % len(reach))
     # ---- (1) version -> constants module
     table_if = None
     for st in body:
@@ -408,6 +451,44 @@ def check_c16(ctx, led):
                 continue
             break
     led.ok("C16.reach", "interactive.ask_interactively::reachability", module.where(read_stmt), "%d legal values are fixed points of the normaliser" % n_vals)
+    # ---- (5b) no other exit of the answer loop may take a legal answer away from the accept test
+    diverts = [n for n in ast.walk(wl) if isinstance(n, (ast.Continue, ast.Break, ast.Return, ast.Raise)) and n is not br]
+    n_div = 0
+    for dv in diverts:
+        dfacts = G.dominating_facts(module, dv, stop=wl)
+        hit = None
+        for vnum, vv in ((2, 2), (3, 3.0), (3, 3.1), (4, 4.0)):
+            const = VERSIONS[vnum]["const"]
+            names = ctx.ce.table(const, "METRICS_VALUE_NAMES", "C16.tables")
+            nd = ctx.vspec(vnum)["nd"]
+            for k, row in names.items():
+                if not isinstance(row, dict):
+                    continue
+                for val in row:
+                    for typed in (apply_norm(chain, val), "" if val == nd else None):
+                        if typed is None:
+                            continue
+                        env = {answer: typed, vname: vv, allname: True, vals_name: list(row.keys())}
+                        if metric:
+                            env[metric] = k
+                        try:
+                            taken = all(bool(eval_guard(fa.expr, env)) == fa.pol for fa in dfacts)
+                        except KeyError as e:
+                            raise AnalysisError(
+                                "C16.reach", "cannot evaluate the guard of `%s` (%s) for a legal answer" % (short(dv), e), dv, module
+                            )
+                        n_div += 1
+                        if taken and hit is None:
+                            hit = (vnum, k, val, typed)
+        led.check(
+            hit is None,
+            "C16.reach.divert",
+            "interactive.ask_interactively::%s" % short(dv),
+            module.where(dv),
+            "a legal answer leaves the accept path: for CVSS v%s metric %s the answer %r (value %s) takes `%s` before the "
+            "legality test, so that value can never be selected" % ((hit[0], hit[1], hit[3], hit[2], short(dv)) if hit else ("", "", "", "", "")),
+        )
+    led.ok("C16.reach.divert", "interactive.ask_interactively::other loop exits", module.where(wl), "%d other exits, %d guard evaluations" % (len(diverts), n_div))
     # ---- (6) prefix and result
     ret = [n for n in ast.walk(f.node) if isinstance(n, ast.Return) and n.value is not None]
     pre_if = None
